@@ -274,10 +274,11 @@ def _convert_to_pep440(version_pattern: str) -> str:
     # NOTE: A tag that is numbered by another part (e.g. "[-TAG[INC1]]") stays
     #   where it is. Moving only the tag would fuse its number with the release.
     other_num_parts = "|".join(name for name in part_names if name not in NON_NUMERICAL_PARTS)
-    is_tag_numbered = re.search(r"PYTAG\[?(?:" + other_num_parts + ")", pep440_pattern) is not None
+    is_tag_numbered = re.search(r"PYTAG\[?\.?(?:" + other_num_parts + ")", pep440_pattern) is not None
     if is_tag_numbered:
-        # the number is always written (a0 rather than a)
-        pep440_pattern = re.sub(r"PYTAG\[(" + other_num_parts + r")\]", r"PYTAG\1", pep440_pattern)
+        # the number is always written, directly after the tag (a0 rather than a or a.0)
+        pep440_pattern = re.sub(r"PYTAG\[\.?(" + other_num_parts + r")\]", r"PYTAG\1", pep440_pattern)
+        pep440_pattern = re.sub(r"PYTAG\.(" + other_num_parts + r")", r"PYTAG\1", pep440_pattern)
 
     # PYTAG and NUM must be adjacent and also be the last (optional) part
     if 'PYTAGNUM' not in pep440_pattern and not is_tag_numbered:
